@@ -633,22 +633,20 @@ impl<'a> UserModel<'a> {
     /// See also:
     /// * [Model::delete_sheet]
     pub fn delete_sheet(&mut self, sheet: u32) -> Result<(), String> {
-        let worksheet = self.model.workbook.worksheet(sheet)?;
-
-        self.push_diff_list(vec![Diff::DeleteSheet {
-            sheet,
-            old_data: Box::new(worksheet.clone()),
-        }]);
-
+        let old_data = Box::new(self.model.workbook.worksheet(sheet)?.clone());
         let sheet_count = self.model.workbook.worksheets.len() as u32;
-        // If we are deleting the last sheet we need to change the selected sheet
+
+        // This fails if it is the only sheet: nothing must be recorded in that case
+        self.model.delete_sheet(sheet)?;
+
+        // If we deleted the last sheet we need to change the selected sheet
         if sheet == sheet_count - 1 && sheet_count > 1 {
             if let Some(view) = self.model.workbook.views.get_mut(&self.model.view_id) {
                 view.sheet = sheet_count - 2;
             };
         }
 
-        self.model.delete_sheet(sheet)?;
+        self.push_diff_list(vec![Diff::DeleteSheet { sheet, old_data }]);
         Ok(())
     }
 
@@ -711,6 +709,8 @@ impl<'a> UserModel<'a> {
     /// * [Model::set_sheet_state]
     /// * [UserModel::unhide_sheet]
     pub fn hide_sheet(&mut self, sheet: u32) -> Result<(), String> {
+        // Fails if the sheet does not exist: nothing must change in that case
+        let old_value = self.model.workbook.worksheet(sheet)?.state.clone();
         let sheet_count = self.model.workbook.worksheets.len() as u32;
         for index in 1..sheet_count {
             let sheet_index = (sheet + index) % sheet_count;
@@ -721,13 +721,12 @@ impl<'a> UserModel<'a> {
                 break;
             }
         }
-        let old_value = self.model.workbook.worksheet(sheet)?.state.clone();
+        self.model.set_sheet_state(sheet, SheetState::Hidden)?;
         self.push_diff_list(vec![Diff::SetSheetState {
             index: sheet,
             new_value: SheetState::Hidden,
             old_value,
         }]);
-        self.model.set_sheet_state(sheet, SheetState::Hidden)?;
         Ok(())
     }
 
@@ -738,12 +737,12 @@ impl<'a> UserModel<'a> {
     /// * [UserModel::hide_sheet]
     pub fn unhide_sheet(&mut self, sheet: u32) -> Result<(), String> {
         let old_value = self.model.workbook.worksheet(sheet)?.state.clone();
+        self.model.set_sheet_state(sheet, SheetState::Visible)?;
         self.push_diff_list(vec![Diff::SetSheetState {
             index: sheet,
             new_value: SheetState::Visible,
             old_value,
         }]);
-        self.model.set_sheet_state(sheet, SheetState::Visible)?;
         Ok(())
     }
 
@@ -1566,12 +1565,13 @@ impl<'a> UserModel<'a> {
     /// * [Model::set_frozen_rows()]
     pub fn set_frozen_rows_count(&mut self, sheet: u32, frozen_rows: i32) -> Result<(), String> {
         let old_value = self.model.get_frozen_rows_count(sheet)?;
+        self.model.set_frozen_rows(sheet, frozen_rows)?;
         self.push_diff_list(vec![Diff::SetFrozenRowsCount {
             sheet,
             new_value: frozen_rows,
             old_value,
         }]);
-        self.model.set_frozen_rows(sheet, frozen_rows)
+        Ok(())
     }
 
     /// Sets the number of frozen columns in sheet
@@ -1584,12 +1584,13 @@ impl<'a> UserModel<'a> {
         frozen_columns: i32,
     ) -> Result<(), String> {
         let old_value = self.model.get_frozen_columns_count(sheet)?;
+        self.model.set_frozen_columns(sheet, frozen_columns)?;
         self.push_diff_list(vec![Diff::SetFrozenColumnsCount {
             sheet,
             new_value: frozen_columns,
             old_value,
         }]);
-        self.model.set_frozen_columns(sheet, frozen_columns)
+        Ok(())
     }
 
     /// Paste `styles` in the selected area
@@ -2177,13 +2178,13 @@ impl<'a> UserModel<'a> {
     /// Delete an existing defined name
     pub fn delete_defined_name(&mut self, name: &str, scope: Option<u32>) -> Result<(), String> {
         let old_value = self.model.get_defined_name_formula(name, scope)?;
+        self.model.delete_defined_name(name, scope)?;
         let diff_list = vec![Diff::DeleteDefinedName {
             name: name.to_string(),
             scope,
             old_value,
         }];
         self.push_diff_list(diff_list);
-        self.model.delete_defined_name(name, scope)?;
         self.evaluate_if_not_paused();
         Ok(())
     }
@@ -2256,22 +2257,24 @@ impl<'a> UserModel<'a> {
 
     /// Sets the timezone for the model
     pub fn set_timezone(&mut self, timezone: &str) -> Result<(), String> {
-        let diff_list = vec![Diff::SetTimezone {
-            old_value: self.get_timezone(),
+        let old_value = self.get_timezone();
+        self.model.set_timezone(timezone)?;
+        self.push_diff_list(vec![Diff::SetTimezone {
+            old_value,
             new_value: timezone.to_string(),
-        }];
-        self.push_diff_list(diff_list);
-        self.model.set_timezone(timezone)
+        }]);
+        Ok(())
     }
 
     /// Sets the locale for the model
     pub fn set_locale(&mut self, locale: &str) -> Result<(), String> {
-        let diff_list = vec![Diff::SetLocale {
-            old_value: self.get_locale(),
+        let old_value = self.get_locale();
+        self.model.set_locale(locale)?;
+        self.push_diff_list(vec![Diff::SetLocale {
+            old_value,
             new_value: locale.to_string(),
-        }];
-        self.push_diff_list(diff_list);
-        self.model.set_locale(locale)
+        }]);
+        Ok(())
     }
 
     /// Gets the timezone of the model
